@@ -39,7 +39,7 @@ type pagedQuery struct {
 // Mark is a recorded instant with the current-state answers at that instant.
 type Mark struct {
 	T       int64
-	Kind    string // now | commit | before-commit
+	Kind    string            // now | commit | before-commit
 	Lookups map[string]string // "id|scope" -> canonical answer
 	Rels    map[string]string // query -> canonical pair list
 	Step    int
